@@ -518,7 +518,8 @@ func Operation(rng *rand.Rand, schema *ast.Schema, opt OpOptions) GenOp {
 			td := schema.Types[f.Type.Name()]
 			a := g.selFor(td, depth-1)
 			var b string
-			if rng.Intn(2) == 0 {
+			if rng.Intn(2) == 0 || strings.Contains(a, "...F") {
+				// (a named fragment spread at both places would be the listed shape C01-fragment-spread-twice)
 				b = g.selFor(td, depth-1)
 			} else {
 				// the same selection without the explicit `id`s: where a further step needs one it comes back
@@ -573,8 +574,17 @@ func Operation(rng *rand.Rand, schema *ast.Schema, opt OpOptions) GenOp {
 func dropPlainIDs(sel string) string {
 	toks := strings.Fields(sel)
 	var out []string
+	// inFrag[k]: the k-th open brace belongs to an inline fragment (`... on T {`): an id there stays, a member of
+	// an abstract type without a selected id is the listed shape C01-union-member-without-fields
+	var inFrag []bool
 	for i, t := range toks {
-		if t == "id" {
+		if t == "{" {
+			inFrag = append(inFrag, i >= 2 && toks[i-2] == "on")
+		}
+		if t == "}" && len(inFrag) > 0 {
+			inFrag = inFrag[:len(inFrag)-1]
+		}
+		if t == "id" && !(len(inFrag) > 0 && inFrag[len(inFrag)-1]) {
 			prev, next := "", ""
 			if i > 0 {
 				prev = toks[i-1]
